@@ -1,4 +1,5 @@
 """Port-level simulation of a real elaborated design under Amaranth's simulator."""
+import zlib
 import os
 import warnings
 warnings.simplefilter("ignore")
@@ -37,9 +38,9 @@ def simulate(dut, ins, outs, stim, *, probe=None, frag=None, reset_at=()):
         reset_at = set(reset_at)
     if frag is None or rst is not None:
         # "every elaboration yields the same hardware": for about a quarter of the runs (chosen by the shape of
-        # the run, so that it is reproducible) the design is elaborated once more beforehand and that first
+        # the run -- a checksum of its first rows --, so that it is reproducible) the design is elaborated once more beforehand and that first
         # result is thrown away; what is simulated is the SECOND elaboration of the same instance
-        if (len(stim) * 7 + len(ins) * 3 + len(outs)) % 4 == 0 and not os.environ.get("VERIF_ELABORATE_ONCE") \
+        if zlib.crc32(repr((len(ins), len(outs), stim[:6])).encode()) % 4 == 0 and not os.environ.get("VERIF_ELABORATE_ONCE") \
                 and not getattr(dut, "verif_elaborate_once", False):
             try:
                 Fragment.get(dut, None)
